@@ -253,3 +253,24 @@ func H_C17_OrderSurcharge() {
 		vrt.Assert(cx.Surcharge.Value() == cy.Surcharge.Value(), "category-surcharge-independent-of-order")
 	}
 }
+
+// H_C17_RemoveIncludedFixedRow: the shape of known finding C17-remove-included-fixed-document-row, kept in the quick
+// tier so that the finding is exercised (and reported as known) on every run: one line with a four-decimal price, a
+// fixed document discount, prices including VAT, rule 'precise'.
+func H_C17_RemoveIncludedFixedRow() {
+	pr := num.MakeAmount(vrt.Int64In("price", 0, 9999), 4) // small amounts: the residue of a cent shows there
+	p21 := skP21
+	inv := &Invoice{Currency: "EUR", IssueDate: cal.MakeDate(2024, 3, 1), Tax: &Tax{Rounding: tax.RoundingRulePrecise, PricesInclude: "VAT"}}
+	inv.Lines = []*Line{{Quantity: num.MakeAmount(-2, 0), Item: &org.Item{Name: "item", Price: &pr}, Taxes: tax.Set{{Category: "VAT", Percent: &p21}}}}
+	inv.Discounts = []*Discount{{Amount: num.MakeAmount(vrt.Int64In("disc", -100, -1), 2), Taxes: tax.Set{{Category: "VAT", Percent: &p21}}}}
+	if calculate(inv) != nil {
+		return
+	}
+	twt := inv.Totals.TotalWithTax
+	if removeIncludedTaxes(inv) != nil {
+		return
+	}
+	t := inv.Totals
+	vrt.Known("C17-remove-included-fixed-document-row", true)
+	vrt.Assert(vrt.And(t.Payable.Value() == twt.Value(), t.Payable.Exp() == twt.Exp()), "payable-equals-original-total-with-tax")
+}
